@@ -230,7 +230,7 @@ class Ctx:
                 if k["key" if "key" in k else "key_regex"] not in [h[0] for h in self.known_hit]:
                     self.known_hit.append((k.get("key", k.get("key_regex")), k.get("what", detail)))
                 return False
-        if len(self.violations) < 50:
+        if len(self.violations) < 400:
             os.makedirs(os.path.join(VERIF, "replays"), exist_ok=True)
             rp = os.path.join(VERIF, "replays", f"{self.pid}_{len(self.violations)}.json")
             with open(rp, "w") as fh:
@@ -266,7 +266,7 @@ class Ctx:
         for k, what in self.known_hit:
             print(f"KNOWN-FINDING: property={self.pid} {k}: {what}")
         if self.violations:
-            for key, detail, rp in self.violations[:10]:
+            for key, detail, rp in self.violations[:int(os.environ.get('VERIF_SHOW', '10'))]:
                 print(f"  violation {key}: {detail}")
             print(f"VIOLATION property={self.pid} replay={self.violations[0][2]}")
             return 1
